@@ -147,13 +147,16 @@ func applyCmdEnvTags(s reflect.Value, fielder getFielder) error {
 							return fmt.Errorf("programming error -- missing delimiter for slice field: %s", fieldType.Name)
 						}
 
-						rawValue, ok := value.Index(0).Interface().(string)
-						if !ok {
-							return fmt.Errorf("programming error -- slice field must be a string: %s", fieldType.Name)
+						// go-flags may already have split an environment value on the
+						// delimiter, and a flag may be repeated: split every element
+						var values []string
+						for i := 0; i < value.Len(); i++ {
+							rawValue, ok := value.Index(i).Interface().(string)
+							if !ok {
+								return fmt.Errorf("programming error -- slice field must be a string: %s", fieldType.Name)
+							}
+							values = append(values, strings.Split(rawValue, delimiter)...)
 						}
-
-						// split the value on the delimiter
-						values := strings.Split(rawValue, delimiter)
 						// create a new slice of the same type as the field
 						slice := reflect.MakeSlice(field.Type(), len(values), len(values))
 						// iterate over the values and set them
